@@ -698,6 +698,45 @@ def rule_D11(text):
     return re.sub(r'for \(([^)]*)\) in ((?:[^\s{]|\[[^\]]*\])+?)\.keys_values\(\) \{', rep, text), n
 
 
+def rule_X1(text):
+    """explicit slice iterators -> cursors:  `let mut IT = E.iter();` -> `let mut IT: usize = 0;` and `IT.next()` -> `verif_next_u16(&E, &mut IT)`
+    (slice::Iter::next yields &E[0], &E[1], ... then None; the model function's contract says exactly that)"""
+    n = 0
+    its = {}
+    for m in re.finditer(r'let mut (\w+) = ([\w\.]+)\.iter\(\);', text):
+        its[m.group(1)] = m.group(2)
+    for it, e in its.items():
+        text, c1 = re.subn(r'let mut %s = %s\.iter\(\);' % (re.escape(it), re.escape(e)), 'let mut %s: usize = 0;' % it, text)
+        text, c2 = re.subn(r'\b%s\.next\(\)' % re.escape(it), 'verif_next_u16(&%s, &mut %s)' % (e, it), text)
+        n += c1 + c2
+    return text, n
+
+
+def rule_X2(text):
+    """match A.cmp(B) { Ordering::Less => {X} Ordering::Equal => {Y} Ordering::Greater => {Z} }  ->  if *A < *B {X} else if *A == *B {Y} else {Z}
+    (Ord::cmp on &u16 compares the pointees; the three arms are exhaustive)"""
+    n = 0
+    while True:
+        m = re.search(r'match (\w+)\.cmp\((\w+)\) \{', text)
+        if not m:
+            break
+        ob = m.end() - 1
+        cb = match_close(text, ob, '{', '}')
+        inner = text[ob + 1:cb]
+        arms = {}
+        for name in ('Less', 'Equal', 'Greater'):
+            ma = re.search(r'Ordering::%s => \{' % name, inner)
+            if not ma:
+                raise ExtractError('unsupported construct: match on cmp without a block arm for Ordering::%s' % name)
+            o2 = ma.end() - 1
+            c2 = match_close(inner, o2, '{', '}')
+            arms[name] = inner[o2:c2 + 1]
+        a, b = m.group(1), m.group(2)
+        text = text[:m.start()] + 'if *%s < *%s %s else if *%s == *%s %s else %s' % (a, b, arms['Less'], a, b, arms['Equal'], arms['Greater']) + text[cb + 1:]
+        n += 1
+    return text, n
+
+
 def rule_D9(text):
     """(LO..HI).map(|X| BODY).collect()   ->   { let mut verif_out = Vec::new(); let verif_hi = HI; let mut verif_k = LO;
                                                  while verif_k < verif_hi { let X = verif_k; let verif_item = BODY; verif_out.push(verif_item); verif_k += 1; } verif_out }
